@@ -27,7 +27,7 @@ theorem sec_factors_cancel {F : Type} [Field F] (h : (324 / 1000 : F) ≠ 0) (x 
   constructor <;> field_simp
 
 /-- the value the parser's `deg2gon` reads from the text `gon2deg(g, 0, 4)` export_xml writes (0 when refused) -/
-noncomputable def degQ (g : ℚ) : ℚ := (((Angles.gon2deg g 0 4).bind fun s => (Angles.deg2gon s : Option ℚ))).getD 0
+def degQ (g : ℚ) : ℚ := (((Angles.gon2deg g 0 4).bind fun s => (Angles.deg2gon s : Option ℚ))).getD 0
 
 /-- for every angle 0 ≤ g (an observed direction, angle, zenith angle or azimuth; `|g|·0.9 < 2³¹−1`) the exported
     sexagesimal text is read back, and what is read differs from `g` by at most 0.00005″ = 1.55·10⁻⁸ gon -/
@@ -51,5 +51,220 @@ theorem sexagesimal_read_back (g : ℚ) (h0 : 0 ≤ g) (hg : g * (9 / 10) < 2147
     simp [habs]
   rw [this] at h3
   exact h3
+
+end Gama.Export
+
+/-! ## round 6: the value read back, explicitly, and the projection law of the real sexagesimal printer
+
+C18's `deg2gon_gon2deg_string` says the text is read back as SOME `v` within half a unit.  `Codec.PrinterOn` also needs
+`fmtDeg (qd x) = fmtDeg x`: the value read back re-prints as the same text.  For that the value must be known: it is the
+angle the printed fields denote (`Printed.gon`), and splitting that angle again gives the printed fields back (the
+seconds have exactly `prec` decimals and are below 60 after the carry). -/
+
+namespace Gama.Angles
+open Gama.Grammar
+
+/-- reading the text of printed fields that are in range gives the angle they denote (no sign is printed in mode 0) -/
+theorem deg2gon_renderGon0 (p : Printed) (pd0 : 0 ≤ p.d) (hdmax : p.d ≤ 2147483647) (pm0 : 0 ≤ p.m) (pm60 : p.m < 60)
+    (pn0 : 0 ≤ p.n) (pn60 : p.n < 60 * (10 : ℤ) ^ p.prec) (psz : p.secNegZero = false) :
+    (deg2gon (p.renderGon 0) : Option ℚ) = some p.gon := by
+  have hpd : p.d.toNat ≤ intMax := by unfold intMax; omega
+  obtain ⟨sp1, sp2, h1, h2, hlay⟩ := renderGon_layout p 0 pd0 pn0 psz
+  obtain ⟨c0, sec', hsecL, hc0, hsecsp, hread⟩ := seconds_field p.n.toNat p.prec
+  have hMl : (padLeft '0' 2 (toString p.m)).toList = List.replicate (2 - (natL p.m.toNat).length) '0' ++ natL p.m.toNat := by
+    rw [padLeft_toList, intStr_toList pm0]
+  have hMd : ∀ c ∈ List.replicate (2 - (natL p.m.toNat).length) '0' ++ natL p.m.toNat, Grammar.isDigit c = true := by
+    intro c hc; rcases List.mem_append.mp hc with h | h
+    · exact zeros_digits _ c h
+    · exact natL_digits _ c h
+  have hMne : List.replicate (2 - (natL p.m.toNat).length) '0' ++ natL p.m.toNat ≠ [] := by
+    have := natL_ne_nil p.m.toNat; simp [this]
+  have hMv : val (List.replicate (2 - (natL p.m.toNat).length) '0' ++ natL p.m.toNat) = p.m.toNat := by
+    rw [val_zeros_append, val_natL]
+  have hfit : secFits (p.n.toNat, -(p.prec : ℤ)) = true := by
+    unfold secFits
+    cases hpz : p.prec with
+    | zero =>
+      simp only [Int.natCast_zero, neg_zero]
+      show ((p.n.toNat == 0) || (decide (0 ≤ 309) && decide (p.n.toNat * 10 ^ 0 < dblOverflow))) = true
+      have : p.n.toNat < dblOverflow := by
+        have : p.n < 60 := by rw [hpz] at pn60; simpa using pn60
+        have := dblOverflow_ge; omega
+      simp [this]
+    | succ k =>
+      show (decide (p.n.toNat.log2 ≤ k) || decide (p.n.toNat < dblOverflow * 10 ^ (k + 1))) = true
+      have : p.n.toNat < dblOverflow * 10 ^ (k + 1) := by
+        have h60 : p.n < 60 * (10 : ℤ) ^ (k + 1) := by rw [hpz] at pn60; exact pn60
+        have : p.n.toNat < 60 * 10 ^ (k + 1) := by
+          have : (p.n.toNat : ℤ) < ((60 * 10 ^ (k + 1) : ℕ) : ℤ) := by
+            rw [Int.toNat_of_nonneg pn0]; push_cast; exact h60
+          exact_mod_cast this
+        calc p.n.toNat < 60 * 10 ^ (k + 1) := this
+          _ ≤ dblOverflow * 10 ^ (k + 1) := Nat.mul_le_mul_right _ dblOverflow_ge
+      simp [this]
+  have hs0 : decide (p.neg = true ∧ ((0 : ℤ) = 1 ∨ (0 : ℤ) = 2 ∨ (0 : ℤ) = 3)) = false := by simp
+  have hparse := parseDms_layout sp1 sp2 false p.d.toNat p.m.toNat _ sec' c0
+    (p.n.toNat, -(p.prec : ℤ)) h1 h2 hpd hMd hMne hMv (by unfold intMax; omega) hc0 hsecsp hread hfit
+  have hstr : String.ofList (p.renderGon 0).toList = p.renderGon 0 := String.ofList_toList
+  rw [hMl, hsecL, hs0] at hlay
+  rw [← hlay, hstr] at hparse
+  have hgon : ((Scalar.ofInt (p.d.toNat : ℤ) : ℚ) / Scalar.ofNat 360 + Scalar.ofInt (p.m.toNat : ℤ) / Scalar.ofNat 21600
+      + sciToK (p.n.toNat, -(p.prec : ℤ)) / Scalar.ofNat 1296000) * Scalar.ofNat 400 = p.gon := by
+    rw [sciToK_rat, ofInt_rat, ofInt_rat, ofNat_rat, ofNat_rat, ofNat_rat, ofNat_rat]
+    unfold Printed.gon
+    have e1 : ((p.d.toNat : ℤ) : ℚ) = (p.d : ℚ) := by rw [Int.toNat_of_nonneg pd0]
+    have e2 : ((p.m.toNat : ℤ) : ℚ) = (p.m : ℚ) := by rw [Int.toNat_of_nonneg pm0]
+    have e3 : ((p.n.toNat : ℕ) : ℚ) = (p.n : ℚ) := by
+      have : ((p.n.toNat : ℤ) : ℚ) = (p.n : ℚ) := by rw [Int.toNat_of_nonneg pn0]
+      exact_mod_cast this
+    rw [e1, e2, e3]; norm_num
+  unfold deg2gon
+  rw [hparse]
+  show some (if (!(Scalar.beq _ (0 : ℚ)) && false) = true then _ else _) = _
+  rw [Bool.and_false]
+  simp only [Bool.false_eq_true, if_false]
+  rw [hgon]
+
+/-- an integer rounds to itself -/
+theorem roundHalfEven_intCast (n : ℤ) : roundHalfEven (n : ℚ) = n := by
+  have h0 : ((n : ℚ)).floor = n := Rat.floor_intCast n
+  unfold roundHalfEven
+  simp only [h0, sub_self]
+  norm_num
+
+/-- seconds with exactly `prec` decimals are printed as they are -/
+theorem scaled_of_decimal (n : ℤ) (prec : ℕ) : scaled ((n : ℚ) / (10 : ℚ) ^ prec) prec = n := by
+  unfold scaled
+  have hp := pow10_pos prec
+  rw [div_mul_cancel₀ _ (ne_of_gt hp)]
+  exact roundHalfEven_intCast n
+
+/-- the fields of an angle given by fields in range are those fields (uniqueness of the sexagesimal splitting) -/
+theorem splitDeg_of_fields (neg : Bool) (d m : ℤ) (s : ℚ) (hd : 0 ≤ d) (hm0 : 0 ≤ m) (hm : m < 60) (hs0 : 0 ≤ s) (hs : s < 60) :
+    splitDeg neg ((d : ℚ) + (m : ℚ) / 60 + s / 3600) = { neg, d, m, s } := by
+  have hmq0 : (0 : ℚ) ≤ (m : ℚ) := by exact_mod_cast hm0
+  have hmq : (m : ℚ) ≤ 59 := by
+    have : m ≤ 59 := by omega
+    exact_mod_cast this
+  have hdq : (0 : ℚ) ≤ (d : ℚ) := by exact_mod_cast hd
+  have hx : (0 : ℚ) ≤ (d : ℚ) + (m : ℚ) / 60 + s / 3600 := by positivity
+  have h := splitDeg_spec neg hx
+  generalize splitDeg neg ((d : ℚ) + (m : ℚ) / 60 + s / 3600) = f at h
+  obtain ⟨fn, fd, fm, fs⟩ := f
+  simp only at h
+  obtain ⟨hneg, -, hfd0, hfm0, hfm60, hfs0, hfs60, hval⟩ := h
+  have hfmq0 : (0 : ℚ) ≤ (fm : ℚ) := by exact_mod_cast hfm0
+  have hfmq : (fm : ℚ) ≤ 59 := by
+    have : fm ≤ 59 := by omega
+    exact_mod_cast this
+  have ed : d = fd := by
+    have h1 : ((d - fd : ℤ) : ℚ) < 1 := by push_cast; linarith
+    have h2 : (-1 : ℚ) < ((d - fd : ℤ) : ℚ) := by push_cast; linarith
+    have h1' : d - fd < 1 := by exact_mod_cast h1
+    have h2' : -1 < d - fd := by exact_mod_cast h2
+    omega
+  subst ed
+  have em : m = fm := by
+    have h1 : ((m - fm : ℤ) : ℚ) < 1 := by push_cast; linarith
+    have h2 : (-1 : ℚ) < ((m - fm : ℤ) : ℚ) := by push_cast; linarith
+    have h1' : m - fm < 1 := by exact_mod_cast h1
+    have h2' : -1 < m - fm := by exact_mod_cast h2
+    omega
+  subst em
+  have es : s = fs := by linarith
+  subst es
+  subst hneg
+  rfl
+
+/-- **projection**: the angle the printed fields denote is printed as the same fields — with the carry, minutes and
+    seconds below 60, the seconds having exactly `prec` decimals -/
+theorem gon2deg_printed_gon (p : Printed) (hneg : p.neg = false) (pd0 : 0 ≤ p.d) (pm0 : 0 ≤ p.m) (pm60 : p.m < 60)
+    (pn0 : 0 ≤ p.n) (pn60 : p.n < 60 * (10 : ℤ) ^ p.prec) (psz : p.secNegZero = false) (sign : ℤ) :
+    gon2degWith true true p.gon sign p.prec = some (p.renderGon sign) := by
+  have hp := pow10_pos p.prec
+  have hs0 : (0 : ℚ) ≤ (p.n : ℚ) / (10 : ℚ) ^ p.prec := div_nonneg (by exact_mod_cast pn0) (le_of_lt hp)
+  have hs60 : (p.n : ℚ) / (10 : ℚ) ^ p.prec < 60 := by
+    rw [div_lt_iff₀ hp]
+    exact_mod_cast pn60
+  have hdq : (0 : ℚ) ≤ (p.d : ℚ) := by exact_mod_cast pd0
+  have hmq : (0 : ℚ) ≤ (p.m : ℚ) := by exact_mod_cast pm0
+  have hg0 : 0 ≤ p.gon := by
+    rw [Printed.gon_eq]; unfold Printed.degrees; positivity
+  have hnl : decide (p.gon < 0) = false := by simpa using hg0
+  have hf : gonFields true p.gon = { neg := false, d := p.d, m := p.m, s := (p.n : ℚ) / (10 : ℚ) ^ p.prec } := by
+    rw [gonFields_eq, hnl, abs_of_nonneg hg0]
+    have : p.gon * (9 / 10) = (p.d : ℚ) + (p.m : ℚ) / 60 + ((p.n : ℚ) / (10 : ℚ) ^ p.prec) / 3600 := by
+      rw [Printed.gon_eq]; unfold Printed.degrees; field_simp
+    rw [this]
+    exact splitDeg_of_fields false p.d p.m _ pd0 pm0 pm60 hs0 hs60
+  rw [gon2degWith_rat, hf]
+  simp only []
+  rw [toPrinted_carry_shape, scaled_of_decimal, if_neg (not_le.mpr pn60)]
+  obtain ⟨pn, pd, pm, pnn, pp, pz⟩ := p
+  simp only at hneg psz
+  subst hneg; subst psz
+  rfl
+
+end Gama.Angles
+
+namespace Gama.Export
+
+/-- the domain of the sexagesimal printer `gon2deg(·, 0, 4)`: no sign is printed, and `int(gon·0.9)` must be defined.
+    gama keeps observed directions, angles, zenith angles and azimuths in [0, 400) gon -/
+def DegDom (g : ℚ) : Prop := 0 ≤ g ∧ g * (9 / 10) < 2147483647
+
+instance : DecidablePred DegDom := fun g => inferInstanceAs (Decidable (0 ≤ g ∧ g * (9 / 10) < 2147483647))
+
+theorem degDom_of_circle {g : ℚ} (h0 : 0 ≤ g) (h : g < 400) : DegDom g := ⟨h0, by linarith⟩
+
+/-- the printed fields of an angle of the domain, and what they say about `degQ` -/
+theorem degQ_printed (g : ℚ) (hD : DegDom g) :
+    ∃ p : Angles.Printed, p.prec = 4 ∧ Angles.gon2degWith true true g 0 4 = some (p.renderGon 0) ∧ degQ g = p.gon ∧
+      Angles.gon2degWith true true p.gon 0 4 = some (p.renderGon 0) := by
+  obtain ⟨h0, hg⟩ := hD
+  have hx : 0 ≤ |g| * (9 / 10 : ℚ) := by positivity
+  have habs : |g| = g := abs_of_nonneg h0
+  have hfe : Angles.gonFields true g = Angles.splitDeg (decide (g < 0)) (|g| * (9 / 10)) := Angles.gonFields_eq true g
+  obtain ⟨hneg, hdfl, hd0, hm0, hm60, hs0, hs60, -⟩ := Angles.splitDeg_spec (decide (g < 0)) hx
+  rw [← hfe] at hneg hdfl hd0 hm0 hm60 hs0 hs60
+  obtain ⟨pd0, pm0, pm60, pn0, pn60, pprec, pneg⟩ :=
+    Angles.toPrinted_carry_range (Angles.gonFields true g).neg (Angles.gonFields true g).d (Angles.gonFields true g).m
+      (Angles.gonFields true g).s 4 false hd0 hm0 hm60 hs0 hs60
+  obtain ⟨psz, pdle⟩ := Angles.toPrinted_extra (Angles.gonFields true g).neg (Angles.gonFields true g).d
+    (Angles.gonFields true g).m (Angles.gonFields true g).s 4
+  generalize hp : Angles.toPrinted true (Angles.gonFields true g).neg (Angles.gonFields true g).d (Angles.gonFields true g).m
+      (Angles.gonFields true g).s 4 false = p at pd0 pm0 pm60 pn0 pn60 pprec pneg psz pdle
+  have hdmax : (Angles.gonFields true g).d ≤ 2147483646 := by
+    rw [hdfl]
+    have : (|g| * (9 / 10)).floor < 2147483647 := Rat.floor_lt_iff.mpr (by rw [habs]; exact_mod_cast hg)
+    omega
+  have hpn : p.neg = false := by
+    rw [pneg, hneg]; simpa using h0
+  have hstr : Angles.gon2degWith true true g 0 4 = some (p.renderGon 0) := by
+    rw [Angles.gon2degWith_rat, hp]
+  have hrd : (Angles.deg2gon (p.renderGon 0) : Option ℚ) = some p.gon :=
+    Angles.deg2gon_renderGon0 p pd0 (by omega) pm0 pm60 pn0 (by rw [pprec]; exact pn60) psz
+  have hq : degQ g = p.gon := by
+    unfold degQ Angles.gon2deg
+    rw [show Gama.Gen.gon2degCarry = true from by decide, show Gama.Gen.gon2degAbs = true from by decide, hstr]
+    simp [hrd]
+  refine ⟨p, pprec, hstr, hq, ?_⟩
+  have := Angles.gon2deg_printed_gon p hpn pd0 pm0 pm60 pn0 (by rw [pprec]; exact pn60) psz 0
+  rwa [pprec] at this
+
+/-- **the projection law of the real sexagesimal printer**: on its domain, the value read back from the text
+    `gon2deg(g, 0, 4)` is printed as the same text -/
+theorem gon2deg_degQ (g : ℚ) (hD : DegDom g) : Angles.gon2deg (degQ g) 0 4 = Angles.gon2deg g 0 4 := by
+  obtain ⟨p, -, h1, h2, h3⟩ := degQ_printed g hD
+  unfold Angles.gon2deg
+  rw [show Gama.Gen.gon2degCarry = true from by decide, show Gama.Gen.gon2degAbs = true from by decide, h1, h2, h3]
+
+/-- the text of an angle of the domain is read back as `degQ g` -/
+theorem deg2gon_gon2deg_degQ (g : ℚ) (hD : DegDom g) :
+    ∃ str, Angles.gon2deg g 0 4 = some str ∧ (Angles.deg2gon str : Option ℚ) = some (degQ g) := by
+  have h := (sexagesimal_read_back g hD.1 hD.2).1
+  cases hs : Angles.gon2deg g 0 4 with
+  | none => rw [hs] at h; simp at h
+  | some str => rw [hs] at h; exact ⟨str, rfl, by simpa using h⟩
 
 end Gama.Export
